@@ -34,6 +34,9 @@ Qed.
 Lemma game_End_size_bounds v : (1 <= game_End_size v <= 6)%N.
 Proof. unfold game_End_size. destruct (slippi_Version_gte v 3 13); [lia|]. destruct (slippi_Version_gte v 2 0); lia. Qed.
 
+Definition end_of (r : replay) : option end_t :=
+  match end_blk r with Some b => match game_end b with ROk e => Some e | _ => None end | None => None end.
+
 (* ---- wf_replay, unpacked ---- *)
 Lemma wf_replay_inv r st : wf_replay r = true -> game_start (r_start r) = ROk st ->
   assert_max_version_ok (r_ver r) = true /\ (nn (length (r_start r)) <= 65535)%N /\
